@@ -56,65 +56,93 @@ Record acc := mkAcc {
   a_nexits : N;
   a_prev : option opos  (* observed position before this fill *) }.
 
+(** number of observations summed so far, as a rational factor for tolerances: a sum of k
+    observed amounts, each within t of its exact value, is within k*t of the exact sum *)
+Definition qn (n : N) : Q := inject_Z (Z.of_N n).
+
 Definition opened_ok (t : tols) (f : ofill) (rem : Q) (p : opos) : bool :=
   (* position opened by the (remainder [rem] of the) fill with the pro-rata fee share; only what
      the property text fixes is required here (side, size, entry price, fee share, trade id);
      timestamps and quantity_abs_max are compared by corr_b only *)
   let fee := of_fee f * (rem / of_qty f) in
-  side_eqb (op_side p) (of_side f) && exact (op_avg p) (of_price f) &&
+  side_eqb (op_side p) (of_side f) && near (t_price t) (of_price f) (op_avg p) &&
   exact (op_qty p) rem &&
-  near (t_fee t) fee (op_fin p + op_fout p) && near (t_fee t) (- fee) (op_pnl_r p) &&
+  near (2 * t_fee t) fee (op_fin p + op_fout p) && near (t_pnl t) (- fee) (op_pnl_r p) &&
   N_list_eqb (op_trades p) [of_id f] &&
   N.eqb (op_inst p) (of_inst f).
+
+Definition ox_pnl (o : option oexit) : Q := match o with Some x => ox_pnl_r x | None => 0 end.
+Definition ox_fees (o : option oexit) : Q := match o with Some x => ox_fin x + ox_fout x | None => 0 end.
+Definition ox_cnt (o : option oexit) : N := match o with Some _ => 1%N | None => 0%N end.
+Definition op_pnl (o : option opos) : Q := match o with Some p => op_pnl_r p | None => 0 end.
+Definition op_avg' (o : option opos) : Q := match o with Some p => op_avg p | None => 0 end.
+Definition op_fees (o : option opos) : Q := match o with Some p => op_fin p + op_fout p | None => 0 end.
+
+(** (i) side and size = sign and magnitude of the net quantity *)
+Definition chk_size (n' : Q) (cur : option opos) : bool :=
+  match cur with
+  | None => exact n' 0
+  | Some p => exact (osq_pos (Some p)) n' && negb (Qle_bool (op_qty p) 0)
+  end.
+
+(** (ii) a closed record exactly when the net reaches or crosses zero ... *)
+Definition chk_exit_iff (n s : Q) (ex : option oexit) : bool :=
+  Bool.eqb (match ex with Some _ => true | None => false end) (qcrosses n s).
+
+(** ... what a crossing or an opening fill opens ... *)
+Definition chk_opened (t : tols) (n s : Q) (f : ofill) (cur : option opos) : bool :=
+  if qcrosses_strictly n s then
+    match cur with Some p => opened_ok t f (Qabs' (n + s)) p | None => false end
+  else if exact n 0 then
+    match cur with Some p => opened_ok t f (of_qty f) p | None => false end
+  else true.
+
+(** ... and the closed record is that of the position that was open *)
+Definition chk_exit_fields (prev : option opos) (ex : option oexit) : bool :=
+  match ex, prev with
+  | Some x, Some p => side_eqb (ox_side x) (op_side p) && N.eqb (ox_inst x) (op_inst p)
+  | Some _, None => false
+  | None, _ => true
+  end.
+
+(** (iii) cash conservation. [k] closed records have been summed: tolerance (k+1) x t_pnl, plus
+    |open quantity| x t_price for the average entry price that multiplies it *)
+Definition chk_cash (t : tols) (k : N) (xpnl cash' : Q) (cur : option opos) : bool :=
+  near ((qn k + 1) * t_pnl t + Qabs' (osq_pos cur) * t_price t)
+       (xpnl + op_pnl cur) (cash' + osq_pos cur * op_avg' cur).
+
+(** (iv) fee conservation: entry and exit fees of [k] closed records and of the open position *)
+Definition chk_fees (t : tols) (k : N) (xfees fees' : Q) (cur : option opos) : bool :=
+  near ((2 * qn k + 2) * t_fee t) (xfees + op_fees cur) fees'.
+
+(** (v) the fill id is recorded against every position it affected *)
+Definition chk_ids (id : N) (prev : option opos) (ex : option oexit) (cur : option opos) : bool :=
+  match prev, ex, cur with
+  | None, None, Some p => N_list_eqb (op_trades p) [id]
+  | Some q, None, Some p => N_list_eqb (op_trades p) (op_trades q ++ [id])
+  | Some q, Some x, None => N_list_eqb (ox_trades x) (op_trades q ++ [id])
+  | Some q, Some x, Some p =>
+      N_list_eqb (ox_trades x) (op_trades q ++ [id]) && N_list_eqb (op_trades p) [id]
+  | _, _, _ => false
+  end.
 
 Definition step_ok (t : tols) (a : acc) (f : ofill) (o : ostep) : bool :=
   let n := a_net a in
   let s := osq f in
-  let n' := n + s in
-  let xpnl := a_xpnl a + match os_exit o with Some x => ox_pnl_r x | None => 0 end in
-  let xfees := a_xfees a + match os_exit o with Some x => ox_fin x + ox_fout x | None => 0 end in
-  (* (i) side and size = sign and magnitude of the net quantity *)
-  match os_cur o with
-  | None => exact n' 0
-  | Some p => exact (osq_pos (Some p)) n' && negb (Qle_bool (op_qty p) 0)
-  end &&
-  (* (ii) a closed record exactly when the net reaches or crosses zero; what a crossing or an
-     opening fill opens *)
-  Bool.eqb (match os_exit o with Some _ => true | None => false end) (qcrosses n s) &&
-  (if qcrosses_strictly n s then
-     match os_cur o with Some p => opened_ok t f (Qabs' n') p | None => false end
-   else if exact n 0 then
-     match os_cur o with Some p => opened_ok t f (of_qty f) p | None => false end
-   else true) &&
-  match os_exit o, a_prev a with
-  | Some x, Some p => side_eqb (ox_side x) (op_side p) && N.eqb (ox_inst x) (op_inst p)
-  | Some _, None => false
-  | None, _ => true
-  end &&
-  (* (iii) cash conservation *)
-  near (t_pnl t)
-       (xpnl + match os_cur o with Some p => op_pnl_r p | None => 0 end)
-       (a_cash a + ocashflow f +
-        osq_pos (os_cur o) * match os_cur o with Some p => op_avg p | None => 0 end) &&
-  (* (iv) fee conservation *)
-  near (t_fee t)
-       (xfees + match os_cur o with Some p => op_fin p + op_fout p | None => 0 end)
-       (a_fees a + of_fee f) &&
-  (* (v) the fill id is recorded against every position it affected *)
-  match a_prev a, os_exit o, os_cur o with
-  | None, None, Some p => N_list_eqb (op_trades p) [of_id f]
-  | Some q, None, Some p => N_list_eqb (op_trades p) (op_trades q ++ [of_id f])
-  | Some q, Some x, None => N_list_eqb (ox_trades x) (op_trades q ++ [of_id f])
-  | Some q, Some x, Some p =>
-      N_list_eqb (ox_trades x) (op_trades q ++ [of_id f]) && N_list_eqb (op_trades p) [of_id f]
-  | _, _, _ => false
-  end.
+  let k := (a_nexits a + ox_cnt (os_exit o))%N in
+  chk_size (n + s) (os_cur o) &&
+  chk_exit_iff n s (os_exit o) &&
+  chk_opened t n s f (os_cur o) &&
+  chk_exit_fields (a_prev a) (os_exit o) &&
+  chk_cash t k (a_xpnl a + ox_pnl (os_exit o)) (a_cash a + ocashflow f) (os_cur o) &&
+  chk_fees t k (a_xfees a + ox_fees (os_exit o)) (a_fees a + of_fee f) (os_cur o) &&
+  chk_ids (of_id f) (a_prev a) (os_exit o) (os_cur o).
 
 Definition acc_next (a : acc) (f : ofill) (o : ostep) : acc :=
   mkAcc (Qred (a_net a + osq f)) (Qred (a_cash a + ocashflow f)) (Qred (a_fees a + of_fee f))
-        (Qred (a_xpnl a + match os_exit o with Some x => ox_pnl_r x | None => 0 end))
-        (Qred (a_xfees a + match os_exit o with Some x => ox_fin x + ox_fout x | None => 0 end))
-        (a_nexits a + match os_exit o with Some _ => 1 | None => 0 end)%N
+        (Qred (a_xpnl a + ox_pnl (os_exit o)))
+        (Qred (a_xfees a + ox_fees (os_exit o)))
+        (a_nexits a + ox_cnt (os_exit o))%N
         (os_cur o).
 
 Fixpoint prop_run (t : tols) (a : acc) (fs : list ofill) (os : list ostep) : bool * acc :=
@@ -135,7 +163,9 @@ Definition prop_b (c : case) : bool :=
       fst r && agrees &&
       match ts with
       | None => true
-      | Some (cnt, pnl) => N.eqb cnt (a_nexits (snd r)) && near (t_pnl t) (a_xpnl (snd r)) pnl
+      | Some (cnt, pnl) =>
+          N.eqb cnt (a_nexits (snd r)) &&
+          near ((qn (a_nexits (snd r)) + 1) * t_pnl t) (a_xpnl (snd r)) pnl
       end
   end.
 
